@@ -59,7 +59,8 @@ CONSTANTS MaxS, MaxT,            \* the counts range over 1..MaxS x 1..MaxT ...
           Namings,               \* subset of {"distinct", "same"}: "same" = source i and downstream i carry the same name
           HandoffChecksCapacity,
           ForwardCountedOnce,
-          SourceKeyFromMapping
+          SourceKeyFromMapping,
+          WithFail               \* histories contain collection starts that fail after the pair's critical section
 
 AllPairs == (1..MaxS) \X (1..MaxT)
 
@@ -99,8 +100,10 @@ Start(s, t, nm) ==
     /\ UNCHANGED <<handlers, waiting, usedK, usedV>>
     /\ hist' = Append(hist, [op |-> "init", S |-> s, T |-> t, names |-> nm])
 
-\* startReadChannel for the pair (key k, value v)
-Offer(k, v) ==
+\* startReadChannel for the pair (key k, value v); lab = "offerfail": the collection's start fails on a LATER shard
+\* (StartReadCollection :421-428 stops the collection on the channels that succeeded; the handler created for the pair
+\* is never started but stays in channelHandlerMap, the assignment stays in the mapping table)
+OfferL(k, v, lab) ==
     /\ S > 0
     /\ Canon => (k <= usedK + 1 /\ v <= usedV + 1)
     /\ usedK' = IF k > usedK THEN k ELSE usedK
@@ -121,9 +124,12 @@ Offer(k, v) ==
               /\ pchk' = IF map[k] # v THEN [pchk EXCEPT ![v] = @ + 1] ELSE pchk   \* :740,745
               /\ UNCHANGED <<map, handlers, waiting, fm, psend, hsk>>
     /\ UNCHANGED <<S, T, naming>>
-    /\ hist' = Append(hist, [op |-> "offer",
+    /\ hist' = Append(hist, [op |-> lab,
                              s |-> IF SrcKey THEN SName(k) ELSE SName(v),
                              t |-> IF SrcKey THEN TName(v) ELSE TName(k)])
+
+Offer(k, v) == OfferL(k, v, "offer")
+OfferFail(k, v) == WithFail /\ OfferL(k, v, "offerfail")
 
 \* forwardChannel's critical section :816-823
 FwdCheck(v) ==
@@ -160,6 +166,7 @@ Next ==
     /\ Len(hist) < MaxOps
     /\ \/ \E p \in Pairs, nm \in Namings : Start(p[1], p[2], nm)
        \/ \E k \in 1..NK, v \in 1..NV : Offer(k, v)
+       \/ \E k \in 1..NK, v \in 1..NV : OfferFail(k, v)
        \/ \E v \in 1..NV : FwdCheck(v)
        \/ \E v \in 1..NV, k \in 1..NK : Handoff(v, k)
 
